@@ -1,4 +1,4 @@
-PROFILE = {"weights": [2, 2, 1, 1, 1, 1, 14, 2, 3, 1], "act": {"tick": 2, "feed": 16, "connect": 3}, "single": True}
+PROFILE = {"weights": [2, 2, 1, 1, 1, 1, 14, 2, 3, 1], "act": {"tick": 2, "feed": 16, "connect": 3}, "single": True, "send": 2}
 ASSUME = ["judged for typed commands received alone in a network read on a connection in service; precedence among simultaneously applicable result codes is not specified (any applicable code accepted)",
           "commands without a python class are outside C08's quantifier (their error answers carry no Result-Code AVP; recorded as an observation in DESIGN.md)"]
 
@@ -10,3 +10,12 @@ def plans(tier):
     sim = [dict(cfg="A", depth=12, maxtime=3, alpha=["cer", "dwr", "req", "ans", "ureq"], num=400 if th else 80, maxconn=3, pairs=False),
            dict(cfg="C", depth=12, maxtime=3, alpha=["cer", "cea", "req", "ureq", "dpr"], num=400 if th else 80, maxconn=4, pairs=False)]
     return mc, sim
+
+
+def enum_plans(tier):
+    th = tier == "thorough"
+    from .c09_plan import two_ready_prefix
+    return [# two applications with the same id for different peers: requests of every kind from both peers
+            dict(cfg="TWOAPPS", depth=3 if th else 2, maxtime=0, alpha=["req1", "reqf"], faults=False, maxconn=2, prefix=two_ready_prefix()),
+            # an application tries to send to a foreign realm, then a peer sends a request for that realm
+            dict(cfg="A", depth=5 if th else 4, maxtime=0, alpha=["cerok", "req1", "reqf", "sendf"], faults=False, maxconn=1)]
